@@ -77,7 +77,7 @@ func (engC02) Runs(tier string) int {
 	return 60000
 }
 func (engC02) Rule() string {
-	return "run i < " + fmt.Sprint(enumCount(len(enumAlphabet()), 4)) + " (thorough tier: " + fmt.Sprint(enumCount(len(enumAlphabet()), 5)) + ") is the i-th build script of length <=4 (thorough: <=5) over a 13-letter reduced alphabet (complete enumeration); later runs are seeded swarm scripts of 0-14 (thorough: up to 40) building steps (AddHeaders, AddRowItems, NewRow*/Row.Add/AddRow, AppendNewRow + late Row.Add, AddSeparator, Row.Add on a separator, scrambling AllRows(); in a quarter of the runs also renders of any format, some aborted by a writer fault, after which the structure must still follow the build history) with 0-5 (sometimes 9-13) cells. After every step the table is compared with the reference model. A run is non-trivial if it attached at least one row; distinct = distinct model shapes (sequence of row widths/separators, header width, detached count)."
+	return "run i < " + fmt.Sprint(enumCount(len(enumAlphabet()), 4)) + " (thorough tier: " + fmt.Sprint(enumCount(len(enumAlphabet()), 5)) + ") is the i-th build script of length <=4 (thorough: <=5) over a 13-letter reduced alphabet (complete enumeration); later runs are seeded swarm scripts of 0-14 (thorough: up to 40) building steps (AddHeaders, AddRowItems, NewRow*/Row.Add/AddRow, AppendNewRow + late Row.Add, AddSeparator, Row.Add on a separator, scrambling AllRows(); in a quarter of the runs also renders of any format, some aborted by a writer fault, after which the structure must still follow the build history) with 0-5 (sometimes 9-13, in scale scenarios 255-300) cells. After every step the table is compared with the reference model. A run is non-trivial if it attached at least one row; distinct = distinct model shapes (sequence of row widths/separators, header width, detached count)."
 }
 func (engC02) Assumptions() []string {
 	return []string{
@@ -173,7 +173,7 @@ func (engC09) Runs(tier string) int {
 	return 12000
 }
 func (engC09) Rule() string {
-	return "run i < " + fmt.Sprint(enumCount(len(enumAlphabet()), 3)) + " (thorough tier: " + fmt.Sprint(enumCount(len(enumAlphabet()), 4)) + ", length <=4) is the i-th build script of length <=3 over the 13-letter reduced alphabet (complete enumeration); later runs are seeded swarm build scripts of 0-12 steps over text-like items (strings incl. empty/multi-line/wide/markup, ints, bools, nil, floats, and SimItems whose declared Height/TerminalCellWidth disagree with their text, incl. zero and negative, and JSON-marshalling items incl. failing ones). Each script ends with one explicit render step per renderer route (package function, fresh wrapper, auto) x every built-in decoration + a Populate()d custom one; every render runs under recover(). Non-trivial = at least one row or header; distinct = distinct model shapes."
+	return "run i < " + fmt.Sprint(enumCount(len(enumAlphabet()), 3)) + " (thorough tier: " + fmt.Sprint(enumCount(len(enumAlphabet()), 4)) + ", length <=4) is the i-th build script of length <=3 over the 13-letter reduced alphabet (complete enumeration); later runs are seeded swarm build scripts of 0-12 steps over text-like items (strings incl. empty/multi-line/wide/markup, ints, bools, nil, floats, and SimItems whose declared Height/TerminalCellWidth disagree with their text, incl. zero and negative, items whose text is exactly 31-33, 63-66, 127-130 or 255-257 cells wide, and JSON-marshalling items incl. failing ones). Each script ends with one explicit render step per renderer route (package function, fresh wrapper, auto) x every built-in decoration + a Populate()d custom one; every render runs under recover(). Non-trivial = at least one row or header; distinct = distinct model shapes."
 }
 func (engC09) Assumptions() []string {
 	return []string{
